@@ -173,7 +173,7 @@ Definition nstages (p : pipe) : nat := length (p_stages p).
        the barrier; if the scf.yield follows, the pipeline is valid only when the current stage
        is empty (the body ends with a barrier);
      any other op ends the scan, and unless that op is the scf.yield there is no pipeline
-     (repo fix 3624df2; before it the pipeline was built from the stages seen so far and the
+     (repo fix ce37edb; before it the pipeline was built from the stages seen so far and the
      remaining ops stayed in the loop body, where they ran for the iterations of the shifted
      steady-state loop only).
    The body after the index ops is given as tokens; [scan cur n l] = number of stages of the
